@@ -339,7 +339,22 @@ pub struct World {
     pub gave_back: Vec<(u32, Vec<TaskId>)>,
     /// with `WorldConfig::journal`: every event the real `EventStreamer` handed to the journal writer, in order
     pub journal: Rc<RefCell<Vec<Event>>>,
+    /// journal flush requests are answered at once unless `hold` is set (a slow fsync): then they wait for `release_flushes`
+    pub flush_gate: Rc<RefCell<FlushGate>>,
     _tmp: tempfile::TempDir,
+}
+
+#[derive(Default)]
+pub struct FlushGate {
+    pub hold: bool,
+    pub pending: Vec<oneshot::Sender<()>>,
+}
+
+/// a second client connection that sent `Submit` with stream options (`hq submit --wait`)
+pub struct WaitClient {
+    _tx: futures::channel::mpsc::UnboundedSender<tako::Result<FromClientMessage>>,
+    rx: futures::channel::mpsc::UnboundedReceiver<ToClientMessage>,
+    pub received: Vec<ToClientMessage>,
 }
 
 impl World {
@@ -368,6 +383,8 @@ impl World {
             journal_path: None,
         });
         let journal: Rc<RefCell<Vec<Event>>> = Default::default();
+        let flush_gate: Rc<RefCell<FlushGate>> = Default::default();
+        let gate = flush_gate.clone();
         let events = if cfg.journal {
             // journal sink: stands in for `start_event_streaming` (the writer task); records what would be persisted
             let (jtx, mut jrx) = tokio::sync::mpsc::unbounded_channel::<EventStreamMessage>();
@@ -377,7 +394,12 @@ impl World {
                     match m {
                         EventStreamMessage::Event(e) => sink.borrow_mut().push(e),
                         EventStreamMessage::FlushJournal(cb) => {
-                            let _ = cb.send(());
+                            let mut g = gate.borrow_mut();
+                            if g.hold {
+                                g.pending.push(cb);
+                            } else {
+                                let _ = cb.send(());
+                            }
                         }
                         EventStreamMessage::PruneJournal { callback, .. } => {
                             let _ = callback.send(());
@@ -438,6 +460,7 @@ impl World {
             sent: Vec::new(),
             gave_back: Vec::new(),
             journal,
+            flush_gate,
             _tmp: tmp,
         }
     }
@@ -479,6 +502,45 @@ impl World {
         }
         self.pump_server_messages();
         r
+    }
+
+    /// `hq submit --wait`: a new connection through the real `client_rpc_loop` sends `Submit` with stream options.
+    /// Returns after the loop is blocked (on the journal flush if the gate holds, else streaming).
+    pub fn wait_submit_begin(&mut self, msg: FromClientMessage) -> WaitClient {
+        let (client_tx, srv_rx) = futures::channel::mpsc::unbounded::<tako::Result<FromClientMessage>>();
+        let (srv_tx, client_rx) = futures::channel::mpsc::unbounded::<ToClientMessage>();
+        let server_dir = ServerDir::open(&self._tmp.path().join("001")).unwrap();
+        let state_ref = self.state_ref.clone();
+        let senders = self.senders.clone();
+        self.local.spawn_local(async move {
+            let tx = srv_tx.sink_map_err(|e| tako::Error::GenericError(e.to_string()));
+            client_rpc_loop(tx, srv_rx, server_dir, state_ref, &senders, Arc::new(Notify::new())).await;
+        });
+        client_tx.unbounded_send(Ok(msg)).unwrap();
+        let mut c = WaitClient { _tx: client_tx, rx: client_rx, received: vec![] };
+        self.wait_poll(&mut c);
+        self.pump_server_messages();
+        c
+    }
+
+    /// lets the waiting connection run and collects what it has been sent so far
+    pub fn wait_poll(&mut self, c: &mut WaitClient) {
+        self.settle();
+        while let Ok(Some(m)) = c.rx.try_next() {
+            c.received.push(m);
+        }
+    }
+
+    /// the (slow) journal flush completes
+    pub fn release_flushes(&mut self) {
+        {
+            let mut g = self.flush_gate.borrow_mut();
+            g.hold = false;
+            for cb in g.pending.drain(..) {
+                let _ = cb.send(());
+            }
+        }
+        self.settle();
     }
 
     /// moves everything the server queued for workers into the harness FIFO queues
